@@ -74,7 +74,15 @@ func VerifC06Include() {
 		// explicit env_file list: the second file derives a value from a variable that the parent
 		// environment and the first file both define (the parent's value must be used)
 		chain = true
-		long["env_file"] = []any{subRel + "/e1.env", subRel + "/e2.env"}
+		// relative to the including project, or absolute
+		switch vrtChoice("envFilePaths", 3) {
+		case 0:
+			long["env_file"] = []any{subRel + "/e1.env", subRel + "/e2.env"}
+		case 1:
+			long["env_file"] = []any{subAbs + "/e1.env", subAbs + "/e2.env"}
+		case 2:
+			long["env_file"] = []any{subRel + "/e1.env", subAbs + "/e2.env"}
+		}
 		vrtFile(subAbs+"/e1.env", "TAG=frome1\n")
 		vrtFile(subAbs+"/e2.env", "ONLYSUB=d-${TAG}\n")
 	}
